@@ -223,13 +223,32 @@ Definition add_each (cur : list value) (news : list value) : list value :=
   cur ++ List.filter (fun o => negb (py_in o cur)) news.
 
 (* nested $addToSet/$push/$pullAll targets: _get_subdocument without the positional
-   operator.  Walks to the parent of the last component creating {} for missing dict keys;
-   returns the rebuilt document given a function on the parent container. *)
-Fixpoint with_parent (parts : list string) (doc : value)
+   operator.  Walks to the parent of the last component creating {} for missing dict keys and
+   returns the rebuilt document given a function on the parent container.  The code walks the
+   filter ("spec") alongside as long as it has the same keys (is_following_spec); [sub] is
+   that sub-spec, None once it stopped following. *)
+Definition spec_len (s : value) : res Z :=
+  match s with
+  | VDoc fs => Ok (Z.of_nat (List.length fs))
+  | VArr xs => Ok (Z.of_nat (List.length xs))
+  | VStr t => Ok (Z.of_nat (String.length t))
+  | _ => Err ECrash
+  end.
+
+(* `subfield not in subspec` then `subspec = subspec[subfield]` for a str subfield *)
+Definition follow_key (sub : option value) (p : string) : res (option value) :=
+  match sub with
+  | None => Ok None
+  | Some (VDoc sfs) => Ok (assoc p sfs)          (* missing key: stop following *)
+  | Some (VArr xs) => if py_in (VStr p) xs then Err ECrash else Ok None
+  | Some (VStr t) => match String.index 0 p t with Some _ => Err ECrash | None => Ok None end
+  | Some _ => Err ECrash                         (* `in` on None / a number: TypeError *)
+  end.
+
+Fixpoint with_parent_spec (parts : list string) (doc : value) (sub : option value)
          (f : value -> string -> res value) {struct parts} : res value :=
   match parts with
   | [] => Err EUnmodelled
-  | [last] => f doc last
   | p :: rest =>
       if p =? "$" then Err EUnmodelled else
       match doc with
@@ -237,19 +256,48 @@ Fixpoint with_parent (parts : list string) (doc : value)
           match as_index p with
           | None => if part_modelled p then Err EValue else Err EUnmodelled
           | Some i =>
-              match nth_error xs (Z.to_nat i) with
-              | Some sub => let! sub' := with_parent rest sub f in
-                            Ok (VArr (set_nth (Z.to_nat i) sub' xs))
-              | None => Err ECrash
+              (* if is_following_spec and (i < 0 or i >= len(subspec)): stop following *)
+              let! sub1 := match sub with
+                           | None => Ok None
+                           | Some s => let! n := spec_len s in
+                                       if i <?? n then Ok (Some s) else Ok None
+                           end in
+              match rest with
+              | [] => f doc p
+              | _ =>
+                  match nth_error xs (Z.to_nat i) with
+                  | None => Err ECrash
+                  | Some x =>
+                      let! sub2 := match sub1 with
+                                   | None => Ok None
+                                   | Some (VArr ys) => Ok (nth_error ys (Z.to_nat i))
+                                   | Some _ => Err EUnmodelled   (* dict[int] / str[int] *)
+                                   end in
+                      let! x' := with_parent_spec rest x sub2 f in
+                      Ok (VArr (set_nth (Z.to_nat i) x' xs))
+                  end
               end
           end
       | VDoc fs =>
-          let sub := match assoc p fs with Some s => s | None => VDoc [] end in
-          let! sub' := with_parent rest sub f in
-          Ok (VDoc (set_key p sub' fs))
-      | _ => Err ECrash       (* `subfield not in parent_doc` on a scalar: TypeError *)
+          match rest with
+          | [] => f doc p
+          | _ =>
+              let x := match assoc p fs with Some s => s | None => VDoc [] end in
+              let! sub' := follow_key sub p in
+              let! x' := with_parent_spec rest x sub' f in
+              Ok (VDoc (set_key p x' fs))
+          end
+      | _ =>
+          match rest with
+          | [] => f doc p
+          | _ => Err ECrash       (* `subfield not in parent_doc` on a scalar: TypeError *)
+          end
       end
   end.
+
+Definition with_parent (spec : value) (parts : list string) (doc : value)
+           (f : value -> string -> res value) : res value :=
+  with_parent_spec parts doc (Some spec) f.
 
 Definition each_of (v : value) : option (list value) :=
   match v with
@@ -290,8 +338,8 @@ Definition as_int (v : value) : option Z :=
   match v with VInt z => Some z | VBool b => Some (if b then 1 else 0) | _ => None end.
 
 (* the $push branch for one (field, value) *)
-Definition push_one (doc : value) (field : string) (arg : value) : res value :=
-  with_parent (split_dots field) doc (fun parent last =>
+Definition push_one (spec : value) (doc : value) (field : string) (arg : value) : res value :=
+  with_parent spec (split_dots field) doc (fun parent last =>
     let cur_r : res (list value) :=
       match parent with
       | VDoc fs => match assoc last fs with
@@ -368,8 +416,28 @@ Definition push_one (doc : value) (field : string) (arg : value) : res value :=
     | _ => Err ECrash
     end).
 
+(* $addToSet on a dotted field first creates the intermediate sub-documents with
+   `if field_part not in subdocument: subdocument[field_part] = {}`, which raises TypeError as
+   soon as an intermediate value is not a dict *)
+Fixpoint with_parent_d (parts : list string) (doc : value)
+         (f : value -> string -> res value) {struct parts} : res value :=
+  match parts with
+  | [] => Err EUnmodelled
+  | [last] => f doc last
+  | p :: rest =>
+      if p =? "$" then Err EUnmodelled else
+      match doc with
+      | VDoc fs =>
+          let sub := match assoc p fs with Some s => s | None => VDoc [] end in
+          let! sub' := with_parent_d rest sub f in
+          Ok (VDoc (set_key p sub' fs))
+      | VStr _ => Err EUnmodelled
+      | _ => Err ECrash
+      end
+  end.
+
 (* the $addToSet branch for one (field, value) *)
-Definition add_to_set_one (doc : value) (field : string) (arg : value) : res value :=
+Definition add_to_set_one (spec : value) (doc : value) (field : string) (arg : value) : res value :=
   let parts := split_dots field in
   let upd (cur : list value) : list value :=
     match each_of arg with
@@ -390,7 +458,9 @@ Definition add_to_set_one (doc : value) (field : string) (arg : value) : res val
       | _ => Err ECrash
       end
   | _ =>
-      with_parent parts doc (fun parent last =>
+      (* first the creation loop over dicts only, then _get_subdocument following the spec *)
+      let! _ := with_parent_d parts doc (fun parent _ => Ok parent) in
+      with_parent spec parts doc (fun parent last =>
         match parent with
         | VDoc fs =>
             match assoc last fs with
@@ -404,7 +474,7 @@ Definition add_to_set_one (doc : value) (field : string) (arg : value) : res val
   end.
 
 (* the $pullAll branch *)
-Definition pull_all_one (doc : value) (field : string) (arg : value) : res value :=
+Definition pull_all_one (spec : value) (doc : value) (field : string) (arg : value) : res value :=
   match arg with
   | VArr vals =>
       let keep (xs : list value) := List.filter (fun o => negb (py_in o vals)) xs in
@@ -420,7 +490,7 @@ Definition pull_all_one (doc : value) (field : string) (arg : value) : res value
           | _ => Err ECrash
           end
       | parts =>
-          with_parent parts doc (fun parent last =>
+          with_parent spec parts doc (fun parent last =>
             match parent with
             | VDoc fs =>
                 match assoc last fs with
@@ -530,15 +600,15 @@ Definition apply_update_key (spec : value) (update : list (string * value)) (was
       else if k =? "$currentDate" then
         let! fs := fields_of v in let! d := apply_fields UCurrentDate now fs doc in Ok (d, false)
       else if k =? "$addToSet" then
-        let! fs := fields_of v in let! d := fold_fields add_to_set_one fs doc in Ok (d, false)
+        let! fs := fields_of v in let! d := fold_fields (add_to_set_one spec) fs doc in Ok (d, false)
       else if k =? "$pull" then
         let! fs := fields_of v in
         if existsb (fun kv => mem_str "$" (split_dots (fst kv))) fs then Err EUnmodelled else
         let! d := fold_fields pull_one fs doc in Ok (d, false)
       else if k =? "$pullAll" then
-        let! fs := fields_of v in let! d := fold_fields pull_all_one fs doc in Ok (d, false)
+        let! fs := fields_of v in let! d := fold_fields (pull_all_one spec) fs doc in Ok (d, false)
       else if k =? "$push" then
-        let! fs := fields_of v in let! d := fold_fields push_one fs doc in Ok (d, false)
+        let! fs := fields_of v in let! d := fold_fields (push_one spec) fs doc in Ok (d, false)
       else if first then
         (* replacement *)
         if existsb (fun kv => starts_dollar (fst kv)) update then Err EValue else
